@@ -41,6 +41,8 @@ class Goroutine:
         self.locks = None
         self.name = "g%d" % gid
         self.result = None
+        self.force_yield = False
+        self.yielded = False
 
 
 class Builtin:
@@ -833,6 +835,11 @@ class Executor:
                 if not self.schedule():
                     return
                 continue
+            if g.force_yield:
+                g.force_yield = False
+                from . import conc
+                if conc.yield_now(self, g):
+                    continue
             fr = g.stack[-1]
             ins = fr.blocks[fr.bi]["instrs"][fr.ii]
             fr.ii += 1
